@@ -119,6 +119,30 @@ fn slice_cast(ctx: &Ctx, call: &Value) -> Value {
     }
 }
 
+/// an under-aligned user type without a TagHeader field: plain words, 20 bytes, alignment 4
+#[repr(C)]
+pub struct U20 {
+    typ: u32,
+    size: u32,
+    words: [u32; 3],
+}
+impl MaybeDynSized for U20 {
+    type Header = TagHeader;
+    const BASE_SIZE: usize = size_of::<Self>();
+    fn dst_len(_: &TagHeader) {}
+}
+impl Tag for U20 {
+    type IDType = TagType;
+    const ID: TagType = TagType::Custom(ID_BASE + 120);
+}
+impl U20 {
+    fn describe(&self, ctx: &Ctx) -> Value {
+        let b = unsafe { std::slice::from_raw_parts(self.words.as_ptr().cast::<u8>(), 12) };
+        json!({"at": ctx.off(self as *const Self), "sv": out::num(size_of_val(self)),
+               "fat": ctx.off(self.words.as_ptr()), "first": out::bytes(&b[..4])})
+    }
+}
+
 pub fn dispatch(ctx: &mut Ctx, op: &str, call: &Value) -> Option<Value> {
     if op == "slice_cast" {
         return Some(slice_cast(ctx, call));
@@ -143,7 +167,7 @@ pub fn dispatch(ctx: &mut Ctx, op: &str, call: &Value) -> Option<Value> {
         std::process::exit(3);
     }
     Some(match out::arg_str(call, "t") {
-        "a16_2" => g!(A16w2), "a16_6" => g!(A16w6),
+        "a16_2" => g!(A16w2), "a16_6" => g!(A16w6), "u20" => g!(U20),
         "s0" => g!(S0), "s1" => g!(S1), "s2" => g!(S2), "s3" => g!(S3), "s4" => g!(S4), "s5" => g!(S5), "s6" => g!(S6),
         "d8_1" => g!(D8e1), "d8_2" => g!(D8e2), "d8_3" => g!(D8e3), "d8_4" => g!(D8e4), "d8_8" => g!(D8e8), "d8_24" => g!(D8e24),
         "d12_1" => g!(D12e1), "d12_2" => g!(D12e2), "d12_3" => g!(D12e3), "d12_4" => g!(D12e4), "d12_8" => g!(D12e8), "d12_24" => g!(D12e24),
